@@ -6,7 +6,7 @@
    fraction; a list is its length followed by its elements.  The folds at the end mirror the loops that
    driver.ml runs around the model functions.  Definitions only. *)
 From Coq Require Import ZArith QArith Qreduction List Bool.
-From MV Require Import Base.Res Model.TreeOps Model.Ser Model.Equality Model.Numbers Model.Tools Model.IdTree Model.Heap.
+From MV Require Import Base.Res Model.TreeOps Model.Ser Model.Equality Model.Numbers Model.Tools Model.LazyExn Model.IdTree Model.Heap.
 Import ListNotations.
 Open Scope Z_scope.
 
@@ -60,6 +60,10 @@ Definition ser_pairs (l : list (Z * Z)) : list Z := 1 :: zn (length l) :: flat_m
 (* the function wrapped by the lazy cache in the driver *)
 Definition lazy_f (a : Z) : Z := a * a + 1.
 Definition ser_lazy (l : list (Z * bool)) : list Z := 1 :: zn (length l) :: flat_map (fun p => [fst p; zb (snd p)]) l.
+(* ... which raises for the argument 99 *)
+Definition lazy_fx (a : Z) : option Z := if a =? 99 then None else Some (a * a + 1).
+Definition ser_lazy_x (l : list (option Z * bool)) : list Z :=
+  1 :: zn (length l) :: flat_map (fun p => match fst p with Some v => [1; v; zb (snd p)] | None => [0] end) l.
 (* driver: histories on one cache file; None = the file is removed *)
 Fixpoint lazy2_go (force : bool) (st : lstate Z Z) (ops : list (option Z)) : list Z :=
   match ops with
